@@ -1300,6 +1300,9 @@ def _code_to_slice__expr_arglikes(
     if not one:
         fst_ = code_as__expr_arglikes(code, options, self.root._parse_params, coerce=coerce or codea_cls in ASTS_LEAF_LIST_OR_SET)  # the codea_cls sets coerce because we always want to accept List and Set as valid slices
 
+        if codea_cls in (Yield, YieldFrom) and not (f := fst_.a.elts[0].f).pars().n:  # single element coerced to sequence, these need to be parenthesized definitely
+            f._parenthesize_grouping()
+
         return fst_ if fst_.a.elts else None  # put empty sequence is same as delete
 
     if codea_cls in _ASTS_LEAF_EXPR_NO_TUPLE:  # if putting expr as one then most should be passed through as such except for Tuple, which may need arglike expressions inside it fixed
